@@ -63,6 +63,29 @@ def gen_cases(tier, seed):
                 cfgv[cl.EX_NEG], cfgv[cl.EX_INV], cfgv[cl.EX_UNX] = sw
                 reps = [seed] + ([(20, kr)] if kr is not None else [])
                 yield cl.H(cfgv).call(inv.callid, inv.args, inv.blobs, reps).case(5000, '%s / %s' % (inv.name, name))
+    # the same inside a with-block of either context manager of the client (identity payload override; suppress block waiting for an
+    # NRC): an outcome raised inside the block gets out of it
+    for inv in invocations():
+        for name, reps in replies_for(inv):
+            if name not in ('positive', 'neg22', 'trunc1', 'flip-echo', 'other-service', 'silence'):
+                continue
+            for blk in ('override', 'suppress'):
+                for sw in itertools.product((1, 0), repeat=3):
+                    cfgv = list(cl.DEFAULT_CFG)
+                    for s, v in inv.cfg.items():
+                        cfgv[s] = v
+                    cfgv[cl.EX_NEG], cfgv[cl.EX_INV], cfgv[cl.EX_UNX] = sw
+                    h = cl.H(cfgv)
+                    if blk == 'override':
+                        h.ov_fun(b'', b'')
+                    else:
+                        h.spr_enter(True)
+                    h.call(inv.callid, inv.args, inv.blobs, reps)
+                    if blk == 'override':
+                        h.ov_exit()
+                    else:
+                        h.spr_exit()
+                    yield h.case(5000, '%s / %s inside a %s block' % (inv.name, name, blk))
     # the same after an earlier call on the same client ended with an exception of another kind (timeout, rejected argument,
     # missing configuration) or with each of the three response exceptions: the delivery rule has no memory
     prefixes = [('after timeout', 6, [], [], []), ('after ValueError', 7, [0x100], [], []), ('after ConfigError', 25, [0x7777], [b'\x01'], []),
